@@ -12,6 +12,7 @@ from pathlib import Path
 from typing import Any, Dict, List, Optional, Tuple
 
 from harness.extract import isolation_reset as x_ir
+from harness.extract import isolation_sinkflags as x_sf
 from harness.extract import sharedstate as x_ss
 from harness.lib import scen
 from harness.lib.core import VERIF, Ctx, Rng, lean_lock, run_driver, shrink_ops
@@ -20,7 +21,15 @@ from harness.rigs import isolation as iso
 from harness.rigs import isolation_sched as isd
 
 MANIFEST = {
-    "text": "ROUND 3 (see design_notes/C04.md): F-10 REPAIRED (fix3-C04: NMNE settings are state of each game's own network) — the inventory "
+    "text": "ROUND 7: F-C04-r7-1 REPAIRED (fix4-C04: a SysLog / PacketCapture writes to its file logger only when it HAS one). The process-wide "
+            "output settings SIM_OUTPUT are classified sink-only (read by log calls only, modelled as `Cmd.log` without effect); that is sound only "
+            "if a log call cannot raise on account of a flag another environment wrote: C04_sink_flag_counterexample refutes isolation for log "
+            "calls that dereference a logger under the process-wide flag alone, C04_gen_sink_flag_uses_guarded (Gen/IsolationSinkFlags: every "
+            "attribute created under a test on SIM_OUTPUT is initialised unconditionally and dereferenced, anywhere in the package, only under "
+            "its own `is not None` guard; two reviewed error branches discharged) excludes them, and rig family (h) runs two instances whose "
+            "io_settings differ in every single option and in all of them, both directions and creation orders, with real file output in a "
+            "temporary session directory; a difference that disappears when SIM_OUTPUT is shielded is a VIOLATION (channel sim-output-settings). "
+            "ROUND 3 (see design_notes/C04.md): F-10 REPAIRED (fix3-C04: NMNE settings are state of each game's own network) — the inventory "
             "obligation is now FULL (C04_gen_globals_safe: no inventory entry is `shared`; C04_gen_no_readable_global; C04_gen_nmne_per_game keeps "
             "the two class attributes unwritten), and C04_skeleton_isolated_partial excludes exactly F-11: every schedule of construct / "
             "reset(seed) / the code's own step of any number of instances leaves each trajectory equal to the solo one provided the instances that "
@@ -51,7 +60,9 @@ MANIFEST = {
     "note": "C04-specific: the model abstracts an operation to its global access pattern; the static call graph is by name (self type followed "
             "through constructors, registered lambdas deferred, unknown receivers resolved within the caller's import closure) — callbacks run "
             "by third-party code (pydantic validators, logging formatters), getattr and dunder protocol methods are seen only by the monitor. "
-            "File/terminal output (SIM_OUTPUT, pcap loggers) is outside the claim. known_findings.json still lists F-10 as open (not editable "
+            "The CONTENT of file/terminal output (which instance's messages end up in which file: all instances of a process share one session "
+            "directory and logger names) is outside the claim; that producing it cannot change or abort an operation is inside (round 7). "
+            "known_findings.json still lists F-10 as open (not editable "
             "from this check); findings/C04.json carries the `fixed` entry and the rig reports a reappearance under another channel name.",
     "technique": "Lean 4 non-interference proof over a mini imperative language; regenerated shared-state inventory, seed handling and static "
                  "call graph; differential env rig (dirty history over a seed family, interleaved instances incl. a third instance and close, with "
@@ -678,6 +689,7 @@ def run(ctx: Ctx):
     with lean_lock():
         ctx.extract("SharedState", x_ss.emit)
         ctx.extract("IsolationReset", x_ir.emit)
+        ctx.extract("IsolationSinkFlags", x_sf.emit)
         ctx.prove(MODULES, exes=[EXE], leanchecker=ctx.thorough)
     ctx.cov["rule"] = ("(a) one case = scenario x action map x dirty history (1-3 episodes of generated actions) x later action sequence; every compared "
                        "step (observation, reward, flags, every agent's action/request/response, whole describe_state) is one evaluation. "
